@@ -2,9 +2,12 @@
     (main.validateTileMatrixSet: IsQuadTree, slices.Max, DeviationStats) against [isQuadTree] /
     [validate].  A case is a tile matrix set (a built-in document of the regenerated TmsData.v, or
     a literal document), a list of field perturbations applied to the DECODED value (as the harness
-    applies them to the Go struct), the requested tile matrix ids, and the two observed verdicts.
+    applies them to the Go struct), the requested tile matrix ids, and the two observed verdicts
+    (the second one is the verdict of the CLI's own validateTileMatrixSet -- the built binary for the
+    built-in sets, the verif hook `texel verif-validate` for a set written to a file -- whenever the
+    harness ran it on exactly this value, and the library composite otherwise).
     Projection: accept / reject / panic. *)
-From Coq Require Import ZArith NArith List String Bool.
+From Coq Require Import ZArith NArith List String Bool DecimalString.
 From Texel Require Import Prelude.Corr Tms.Model.
 From Texel Require Export Tms.Json.
 From Texel.Gen Require Import TmsData.
@@ -26,7 +29,9 @@ Inductive pert :=
 | PCellSize (id : Z) (d : dec)
 | PDelete (id : Z)
 | PVmw (id : Z) (n : Z)             (* n entries; 0 = an empty, non-nil slice *)
-| PId (id : Z) (s : string).
+| PId (id : Z) (s : string)
+| PShift (d : Z).                   (* every tile matrix k becomes tile matrix k + d (map key and id string):
+                                       "all ids renumbered from 1" is PShift 1 on a set that starts at 0 *)
 
 Inductive vclass := VAccept | VReject | VPanicked | VSkip (* not observed *).
 
@@ -39,6 +44,9 @@ Definition set_matrices (t : tms) (l : list (Z * tileMatrix)) : tms :=
   MkTMS (t_id t) (t_title t) (t_description t) (t_keywords t) (t_uri t) (t_orderedAxes t) (t_wkss t) (t_bbox t) (t_crs t) l.
 
 Definition corner_of (c : Z) : corner := if c =? 1 then TopLeft else if c =? 2 then BottomLeft else CornerUnset.
+
+(** strconv.Itoa *)
+Definition itoa (z : Z) : string := NilZero.string_of_int (Z.to_int z).
 
 Definition apply_pert (t : tms) (p : pert) : tms :=
   let l := t_matrices t in
@@ -56,6 +64,7 @@ Definition apply_pert (t : tms) (p : pert) : tms :=
     | PCellSize k d => upd k (fun m => MkTM (tm_id m) (tm_title m) (tm_description m) (tm_keywords m) (tm_scaleDenominator m) d (tm_corner m) (tm_origin m) (tm_tileWidth m) (tm_tileHeight m) (tm_matrixWidth m) (tm_matrixHeight m) (tm_vmw m)) l
     | PDelete k => filter (fun e => negb (fst e =? k)) l
     | PVmw k n => upd k (fun m => MkTM (tm_id m) (tm_title m) (tm_description m) (tm_keywords m) (tm_scaleDenominator m) (tm_cellSize m) (tm_corner m) (tm_origin m) (tm_tileWidth m) (tm_tileHeight m) (tm_matrixWidth m) (tm_matrixHeight m) (Some (repeat (MkVmw 2 0 0) (Z.to_nat n)))) l
+    | PShift d => map (fun e => let m := snd e in (fst e + d, MkTM (itoa (fst e + d)) (tm_title m) (tm_description m) (tm_keywords m) (tm_scaleDenominator m) (tm_cellSize m) (tm_corner m) (tm_origin m) (tm_tileWidth m) (tm_tileHeight m) (tm_matrixWidth m) (tm_matrixHeight m) (tm_vmw m))) l
     | PId k s => upd k (fun m => MkTM s (tm_title m) (tm_description m) (tm_keywords m) (tm_scaleDenominator m) (tm_cellSize m) (tm_corner m) (tm_origin m) (tm_tileWidth m) (tm_tileHeight m) (tm_matrixWidth m) (tm_matrixHeight m) (tm_vmw m)) l
     end.
 
